@@ -405,7 +405,7 @@ def c07(ctx):
 
 
 def c12(ctx):
-    files = parser_trees(ctx, SURR_TREES + ['struct', 'str', 'hex']) + parser_graph(ctx)
+    files = parser_trees(ctx, SURR_TREES + ['struct', 'str', 'hex']) + parser_graph(ctx) + byte_trees(ctx, ('mixedlenient', 'mixed'))
     ctx.replay(files, ['C12.'])
     parser_trace(ctx, ['C12.'])
     sweeps(ctx, ['esc_u', 'esc_pair', 'raw_str', 'esc_ascii'], 'C12.sweep',
